@@ -35,12 +35,15 @@ def layout_case(tag, world, opts, prestate=None, input_bytes=None, config_text=N
 
 
 def fix_outdir(w, opts):
-    if opts.get("outdir") == "ABS":
-        opts["outdir"] = os.path.join(w.world, "abs out")
+    """Kept for call-site compatibility: the symbolic output directory "ABS" (an absolute path inside the world of the run) is
+    resolved per run by runner.run / out_abs and never written back into the option tuple."""
+    del w, opts
 
 
 def out_abs(w, opts):
     o = opts.get("outdir")
+    if o == "ABS":
+        return os.path.join(w.world, "abs out")
     return os.path.normpath(os.path.join(w.work, o if o is not None else "output/"))
 
 
